@@ -59,7 +59,7 @@ func (c01) Gen(r *rand.Rand, tier string, idx int) *core.Plan {
 	}
 	if r.IntN(3) == 0 {
 		// a signer who signs a payload that names the artifact's digest with a wrong size / media type / payload type
-		p.Ops = append(p.Ops, core.Op{Kind: "roguesign", I: []int64{int64(r.IntN(6)), int64(r.IntN(2)), int64(r.IntN(2)), int64(r.IntN(7))}})
+		p.Ops = append(p.Ops, core.Op{Kind: "roguesign", I: []int64{int64(r.IntN(6)), int64(r.IntN(2)), int64(r.IntN(2)), int64(r.IntN(9))}})
 		ns++
 	}
 	total := ns
@@ -160,7 +160,7 @@ func (l c01) Exec(env *core.Env) *core.Result {
 				}
 				sigs = append(sigs, c01Sig{bytes: b, format: format, artifact: art, origin: fmt.Sprintf("signed(art=%d,signer=%d,%s,meta=%d)", art, op.Int(1)%2, format[12:], op.Int(3)%4)})
 			case "roguesign":
-				art, sg, format, variant := int(op.Int(0))%6, signers[op.Int(1)%2], world.Formats[op.Int(2)%2], op.Int(3)%7
+				art, sg, format, variant := int(op.Int(0))%6, signers[op.Int(1)%2], world.Formats[op.Int(2)%2], op.Int(3)%9
 				var d ocispec.Descriptor
 				if art < 3 {
 					d = oci[art]
@@ -184,7 +184,18 @@ func (l c01) Exec(env *core.Env) *core.Result {
 				case 6:
 					o.ContentType = "application/vnd.cncf.notary.payload.v1+json "
 				}
-				b, err := world.SignPayload(sg, world.PayloadFor(d), o)
+				payload := world.PayloadFor(d)
+				if variant >= 7 {
+					// a payload document that decodes only in part: it carries the pairs callers like to require next to a
+					// member of the wrong JSON type (a number among the annotation values; the size as a string)
+					ann := `{"k1":"v1","k2":"v2","k3":"v3","empty":"","approved":"","build":1234}`
+					size := fmt.Sprint(d.Size)
+					if variant == 8 {
+						ann, size = `{"k1":"v1","k2":"v2","k3":"v3","empty":"","approved":""}`, `"`+fmt.Sprint(d.Size)+`"`
+					}
+					payload = []byte(fmt.Sprintf(`{"targetArtifact":{"annotations":%s,"mediaType":%q,"digest":%q,"size":%s}}`, ann, d.MediaType, d.Digest, size))
+				}
+				b, err := world.SignPayload(sg, payload, o)
 				if err != nil {
 					if variant == 6 {
 						continue // a format whose encoder refuses this spelling cannot carry it
